@@ -413,8 +413,13 @@ def layer_loops(b):
     for lbl, lp, allowed in (("upward", up[0], UP_CARRIED), ("downward", down[0], DOWN_CARRIED)):
         got = loop_carried(lp)
         extra = sorted(got - allowed)
-        ground(b, f"{KEY}::loop_carried_state[{lbl}]", KEY, f"the {lbl} layer loop carries from one layer to the next only the expected state ({', '.join(sorted(allowed))})", not extra,
-               detail=f"carried: {sorted(got)}" if not extra else f"unexpected loop-carried name(s): {extra}", refuted_model=dict(unexpected=str(extra)) if extra else None)
+        if not extra:
+            ground(b, f"{KEY}::loop_carried_state[{lbl}]", KEY, f"the {lbl} layer loop carries from one layer to the next only the expected state ({', '.join(sorted(allowed))})", True,
+                   detail=f"carried: {sorted(got)}")
+        else:
+            # a new loop-carried name does not break the property by itself: it means the induction frame can no longer be established -> undecided, not a violation
+            b.add(Obligation(oid=f"{KEY}::loop_carried_state[{lbl}]", fn=KEY, clause=f"the {lbl} layer loop carries from one layer to the next only the expected state", goal=None,
+                             decided=dict(verdict="undecided", backend="-", reason=f"unexpected loop-carried name(s) {extra}: the generalisation from the enumerated stacks to any layer count is not established", model=None)))
 
 
 def stacks_for(tier):
